@@ -21,6 +21,9 @@ type genCfg struct {
 	// properties' business, see docs/C15.md): qualified identifiers inside literals of structs of another
 	// file, an int literal for an enum of another file, one exception type twice in a throws list
 	compileSafe bool
+	// fullKinds: the main file has structs, a union, an exception, two enums and two typedefs at least
+	// (the positional pairing of registerGoTypes is exercised across all groups); at most 2 files
+	fullKinds bool
 }
 
 type rtype struct {
@@ -69,7 +72,9 @@ type gen struct {
 	curFile int // the file being generated
 }
 
-var pathPool = []string{"a.thrift", "b.thrift", "c.thrift", "d1/base.thrift", "d2/base.thrift", "d1/x.thrift", "sub/deep/y.thrift", "d2/a.thrift", "sub/b.thrift"}
+// base names with inner dots (`base.v2.thrift` is referenced as `base.v2.S`: names split at the LAST dot)
+var pathPool = []string{"a.thrift", "b.thrift", "c.thrift", "d1/base.thrift", "d2/base.thrift", "d1/x.thrift", "sub/deep/y.thrift", "d2/a.thrift", "sub/b.thrift",
+	"sub/base.v2.thrift", "a.b.c.thrift"}
 var baseTypes = []string{"bool", "byte", "i8", "i16", "i32", "i64", "double", "string", "binary"}
 var annoKeys = []string{"x.a", "x.b", "note", "api.q"}
 var annoVals = []string{"", "v1", "hello world", "a=b", "x,y;z", "caf\xc3\xa9", "1", "{json: like}"}
@@ -91,6 +96,9 @@ func (g *gen) layout() {
 	n := 1 + g.r.Intn(5)
 	if g.r.Chance(10) {
 		n = 1
+	}
+	if g.cfg.fullKinds {
+		n = 1 + g.r.Intn(2)
 	}
 	perm := g.r.Intn(len(pathPool))
 	g.doc.Files = append(g.doc.Files, &DFile{Path: "main.thrift"})
@@ -608,9 +616,10 @@ func (g *gen) fieldList(fi int, n int, kind byte, self *DStruct) []*DField {
 	return fs
 }
 
-func (g *gen) strct(fi int) {
+func (g *gen) strct(fi int) { g.strctKind(fi, "sssux"[g.r.Intn(5)]) }
+
+func (g *gen) strctKind(fi int, kind byte) {
 	f := g.doc.Files[fi]
-	kind := "sssux"[g.r.Intn(5)]
 	pfx := map[byte]string{'s': "S", 'u': "U", 'x': "X"}[kind]
 	s := &DStruct{Kind: kind, Name: g.name(fi, kind, pfx), Annos: g.annos(), Comments: g.comments()}
 	n := g.r.Intn(5)
@@ -668,7 +677,12 @@ func (g *gen) file(fi int) {
 	if g.cfg.dupNS && len(f.NS) > 0 && g.r.Chance(60) {
 		f.NS = append(f.NS, DNS{f.NS[0].Lang, f.NS[0].Name + ".again"})
 	}
-	for i := g.r.Intn(3); i > 0; i-- {
+	full := g.cfg.fullKinds && fi == 0
+	ne := g.r.Intn(3)
+	if full {
+		ne = 2 + g.r.Intn(2)
+	}
+	for i := ne; i > 0; i-- {
 		e := &DEnum{Name: g.name(fi, 'e', "E"), Annos: g.annos(), Comments: g.comments()}
 		next := int64(0)
 		for k := g.r.Intn(5); k > 0; k-- {
@@ -691,7 +705,16 @@ func (g *gen) file(fi int) {
 	for i := g.r.Intn(3); i > 0; i-- {
 		g.strct(fi)
 	}
-	for i := g.r.Intn(4); i > 0; i-- {
+	if full {
+		for _, k := range []byte{'s', 'x', 'u', 's'} {
+			g.strctKind(fi, k)
+		}
+	}
+	ntd := g.r.Intn(4)
+	if full && ntd < 2 {
+		ntd = 2
+	}
+	for i := ntd; i > 0; i-- {
 		t := &DTypedef{Alias: g.name(fi, 't', "T"), Annos: g.annos(), Comments: g.comments()}
 		var rt *rtype
 		t.Type, rt = g.genType(fi, 0, "")
